@@ -17,6 +17,8 @@ def verus_to_rust_spec(text):
     """mechanical conversion of trusted spec text to executable Rust over symbolic ints (symx side):
     `pub open spec fn` -> `pub fn`, ghost structs get Clone/Copy."""
     text = re.sub(r'pub (open|closed) spec fn', 'pub fn', text)
+    # spec-level comparison with zero becomes an oracle query (consistent with the code's is_zero decisions)
+    text = re.sub(r'\bif (.+?) == (f\w*zero)\(\) \{', r'if sym_is_zero(&(\1)) {', text)
     text = re.sub(r'^pub struct', '#[derive(Clone, Copy, Debug)]\npub struct', text, flags=re.M)
     return text
 
@@ -68,7 +70,7 @@ class Unit:
         return weave.strip_attrs(self.src.find_const(mod, name)).strip()
 
     def real_fn(self, mod, impl, name, contract, *, vis=None, tail=None, ghost=(), invariants=None,
-                before_returns=None, ret='ret', rename=None, body_edit=None, subst=(), sig_edit=None):
+                before_returns=None, ret='ret', rename=None, body_edit=None, subst=(), sig_edit=None, attrs=''):
         """emit the real function with `contract` woven in. ghost: list of (anchor_re, text, where, occurrence)."""
         sig, body = self.slice_fn(mod, impl, name)
         for a, b in subst:     # R6: associated types / trait paths -> the unit's concrete names
@@ -102,7 +104,7 @@ class Unit:
             body = weave.insert_tail(body, tail, unit_ret=not named)
         key = f"{mod}|{impl}|{name}"
         self.functions.append(key)
-        return f"{sig}\n{contract}\n{body}\n"
+        return f"{attrs}{sig}\n{contract}\n{body}\n"
 
     # ---------------------------------------------------------------- output
     HEAD = ("use vstd::prelude::*;\nuse vstd::arithmetic::div_mod::*;\nuse vstd::arithmetic::mul::*;\n"
